@@ -628,6 +628,11 @@ def nontrivial(case, out):
 
 
 CORPUS = [
+    # boundary hosts in the address book: which of them get the public-address bonus, and the order dial() hands them over
+    ["limits none 2", "addknown 1 ip4.99999/tcp.1/p2p.1,ip4.99998/tcp.0/p2p.1,ip4.99997/tcp.65535/p2p.1,ip4.99996/tcp.1/p2p.1,"
+     "ip4.300/tcp.1/p2p.1,ip4.12/tcp.1/p2p.1,ip6.4/tcp.1/p2p.1,dns.1/tcp.0/p2p.1,ip4.0/tcp.1/p2p.1,ip6.0/tcp.1/p2p.1", "scores 1",
+     "dialaddr ip4.99998/tcp.65535/p2p.2 as=c1", "ev established 2 c1 ip4.99998/tcp.65535/p2p.2 dialer", "accepted c1 ok",
+     "dial 1 as=c2", "scores 1", "ev openfail c2", "substream 1", "scores 1"],
     # finding (d): outbound limit 1, two concurrent dials both establish (fixed: second gets a dial failure)
     ["limits none 1", "dialaddr ip4.11/tcp.1001/p2p.1 as=c1", "dialaddr ip4.12/tcp.1002/p2p.2 as=c2",
      "ev established 1 c1 ip4.11/tcp.1001/p2p.1 dialer", "ev established 2 c2 ip4.12/tcp.1002/p2p.2 dialer",
@@ -654,12 +659,13 @@ FAIL_SCORE = {"t": SCORE_FAIL, "n": SCORE_FAIL, "a": SCORE_ADDR_FAIL}
 
 
 def looks_public(a):
-    """The harness's address convention: ip4.n is public for 256 <= n < 99990, DNS names count as public."""
+    """The harness's address convention: ip4.n is public for 256 <= n < 99990 and for the multicast target 99997
+    (IpNetwork::is_global says so), DNS names count as public."""
     head = a.split("/")[0]
     kind, _, n = head.partition(".")
     if kind in ("dns", "dns4", "dns6"):
         return True
-    return kind == "ip4" and n.isdigit() and 256 <= int(n) < 99990
+    return kind == "ip4" and n.isdigit() and (256 <= int(n) < 99990 or int(n) == 99997)
 
 
 def score_case(rng):
